@@ -523,6 +523,12 @@ Proof.
   constructor; [split; [exact Hne|exact Hu]|constructor].
 Qed.
 
+(* what is loaded, and which command came last, when the parser reaches the first filter *)
+Definition loaded_after (reqs : list bytes) : list bytes :=
+  match reqs with [] => [] | _ => load_exts (map print_item reqs) [] end.
+Definition prev_after (reqs : list bytes) : option bytes :=
+  match reqs with [] => None | _ => Some (bs "require") end.
+
 (* C06 / C11: the text FiltersSet.tosieve writes for a set of good filters with requirements that cover them is
    accepted by the parser and parses to: the require command (when there are requirements), then the filters in
    order, each an `if` carrying its marker lines, `if false` exactly for the disabled ones *)
@@ -535,14 +541,16 @@ Theorem set_accepted : forall loaded fuel reqs sfs,
     match reqs with
     | [] => ns = nps
     | _ => ns = req_pnode reqs :: nps
-    end.
+    end /\
+    (* the derivation behind it: the script is in the grammar, these are its nodes *)
+    wf_tops gen_tables (loaded_after reqs) (prev_after reqs) (map (fun x => (sf_cms x, sf_g x)) sfs) nps (loaded_after reqs).
 Proof.
   intros loaded fuel reqs sfs Hne Hk Hok Hfuel. unfold render_set. cbn [bs_requires bs_filters].
   destruct reqs as [|r0 rest].
   - (* no requirements *)
     cbn [gen_require bbind app].
     destruct (filters_wf [] fuel sfs [] None Hok (fun e H => H)) as (nps & W & Hps).
-    eexists _, nps, nps. split; [reflexivity|]. split; [|split; [exact Hps|reflexivity]].
+    eexists _, nps, nps. split; [reflexivity|]. split; [|split; [exact Hps|split; [reflexivity|exact W]]].
     pose proof (fitems_text fuel [] sfs) as E. destruct sfs as [|x r]; [congruence|]. cbn [app] in E. rewrite <- E.
     eapply (set_parses fsep fsep_space gen_tables (ftops [] (x :: r)) (fitems [] (x :: r)) nps [] fuel twf_gen_tables).
     + rewrite ftops_snd. exact W.
@@ -556,8 +564,8 @@ Proof.
     destruct (filters_wf (r0 :: rest) fuel sfs L1 (Some (d_name (node_def rqp))) Hok) as (nps & W & Hps).
     { intros e He. apply loaded_by_require; assumption. }
     eexists _, (with_comments rqp (map strip_ws []) :: nps), nps. split; [reflexivity|].
-    split; [|split; [exact Hps|]].
-    + pose proof (fitems_text fuel LF sfs) as E. destruct sfs as [|x r]; [congruence|].
+    split; [|split; [exact Hps|split; [reflexivity|exact W]]].
+    pose proof (fitems_text fuel LF sfs) as E. destruct sfs as [|x r]; [congruence|].
       assert (Et : (tosieve fuel (req_node (r0 :: rest)) 0 ++ LF) ++ concat (map (render_filter fuel name_pre desc_pre) (map sf_bf (x :: r))) =
                    set_text fuel (([], ([], req_node (r0 :: rest))) :: fitems LF (x :: r))).
       { unfold set_text at 1. cbn [map concat fst snd app]. fold (set_text fuel (fitems LF (x :: r))). rewrite E, <- !app_assoc. reflexivity. }
@@ -568,7 +576,6 @@ Proof.
       * constructor; [split; [reflexivity|constructor]|apply (ftops_hash (r0 :: rest) fuel); [reflexivity|exact Hok]].
       * discriminate.
       * unfold tops_depth. cbn [fold_right fst snd req_cmd dc]. apply Nat.max_lub; [exact Hfuel|apply (ftops_depth (r0 :: rest) fuel); exact Hok].
-    + reflexivity.
 Qed.
 
 End Filt.
@@ -598,7 +605,8 @@ Theorem factory_set_accepted : forall name_pre desc_pre loaded fuel reqs sfs,
     match reqs with
     | [] => ns = nps
     | _ => ns = req_pnode reqs :: nps
-    end.
+    end /\
+    wf_tops gen_tables (loaded_after reqs) (prev_after reqs) (map (fun x => (sf_cms name_pre desc_pre x, sf_g x)) sfs) nps (loaded_after reqs).
 Proof. exact (set_accepted quote_if_necessary quote_list std_qin_eq std_qlist_eq). Qed.
 
 Print Assumptions factory_filter_good.
